@@ -26,6 +26,9 @@ pub mod locks;
 pub mod handles;
 pub mod snapsched;
 pub mod backup;
+pub mod cygen;
+pub mod query;
+pub mod update;
 
 pub fn all() -> Vec<StreamDef> {
     vec![
@@ -37,6 +40,8 @@ pub fn all() -> Vec<StreamDef> {
         handles::def(),
         snapsched::def(),
         backup::def(),
+        query::def(),
+        update::def(),
     ]
 }
 
